@@ -2,13 +2,39 @@
 from checks.worldcheck import Spec, replayed_delivery
 
 PROP = "C08"
+def explicit(tier, seed):
+    """Shapes the random generator does not produce: the same callable at several parallel positions, and user threads sharing
+    one context (single invocation only: with user threads the call index itself depends on the schedule)."""
+    i = 0
+    for nb in (2, 3, 5):
+        for how in ("identical", "equal"):
+            for depth in (0, 1):
+                brs = [{"body": [{"k": "step", "val": "same"}, {"k": "step", "val": 2}]} for _ in range(nb)]
+                node = {"k": "par", "branches": brs, "cfg": {"max_conc": 1}, "same_fn": how}
+                body = [{"k": "step", "val": 0}, node, {"k": "wait", "s": 1}, {"k": "step", "val": "after"}]
+                if depth:
+                    body = [{"k": "child", "body": body}]
+                yield {"label": "same-callable-" + how, "prog": {"body": body}, "prog_seed": 8800 + i, "pattern": {"p": "plain"}}
+                i += 1
+    for T, N in ((2, 3), (2, 30), (4, 10), (4, 40), (8, 25)) if tier == "quick" else ((2, 3), (2, 30), (2, 200), (4, 10), (4, 40), (4, 150), (8, 25), (8, 100), (16, 40)):
+        for op in ("step", "child"):
+            for rep in range(2 if tier == "quick" else 6):
+                body = [{"k": "step", "val": 0}, {"k": "uthreads", "threads": T, "n": N, "op": op}, {"k": "step", "val": "after"}]
+                if rep % 2:
+                    body = [{"k": "child", "body": body}]
+                yield {"label": "user-threads-share-context", "prog": {"body": body}, "prog_seed": 8900 + i, "pattern": {"p": "plain"}, "max_inv": 1,
+                       "opts": {"perturb": {"p": 0.05, "seed": seed * 131 + i, "files": ["context.py", "threading.py"]}} if rep >= 1 else {}}
+                i += 1
+
+
 SPEC = Spec(
     PROP,
     level="exploration",
     rule="random programs (all nine operation kinds, nesting<=3) x {uninterrupted with random pagination/latency, every single "
-    "crash point of a small-program corpus, random multi-crash, asynchronous SIGKILL, yield injection}; bijection structural-path <-> Id over every update of every invocation; ParentId equals the id of the enclosing context; across all executions of all programs in the worker, ids are a function of the position chain only (metamorphic, no re-implementation of the hash). Non-trivial = positions recorded. "
+    "crash point of a small-program corpus, random multi-crash, asynchronous SIGKILL, yield injection}; bijection structural-path <-> Id over every update of every invocation; ParentId equals the id of the enclosing context; across all executions of all programs in the worker, ids are a function of the position chain only (metamorphic, no re-implementation of the hash). Explicit slice: the same / equal callables at several parallel positions; 2-16 user threads starting operations on one shared context at once (single invocation; collision-freedom and parent links only). Non-trivial = positions recorded. "
     "A class = (program shape hash, interruption pattern, event kind at which the crash landed).",
     deciding=lambda r: True,
+    explicit=explicit,
 )
 cases = SPEC.cases
 run_case = SPEC.run_case
